@@ -181,3 +181,51 @@ func (x *FnIndex) releasedOnAllExits(l lockOp) bool {
 	_, found := pathExists(fn, l.in, isExit, isUnlock)
 	return !found
 }
+
+// mayHeldAt returns the mutexes that are held on at least one path when `at`
+// executes (the last operation on the mutex before `at` on that path is a lock).
+func (x *FnIndex) mayHeldAt(at ssa.Instruction) map[string]string {
+	fn := at.Parent()
+	ops := map[ssa.Instruction]lockOp{}
+	names := map[string]bool{}
+	for _, op := range x.lockOps(fn) {
+		if op.defer_ {
+			continue
+		}
+		ops[op.in] = op
+		names[op.mutex] = true
+	}
+	held := map[string]string{}
+	for name := range names {
+		type pt struct {
+			b *ssa.BasicBlock
+			i int
+		}
+		seen := map[*ssa.BasicBlock]bool{}
+		work := []pt{{at.Block(), instrIdx(at)}}
+		for len(work) > 0 {
+			p := work[len(work)-1]
+			work = work[:len(work)-1]
+			hit := false
+			for i := p.i - 1; i >= 0; i-- {
+				if op, ok := ops[p.b.Instrs[i]]; ok && op.mutex == name {
+					if op.kind == "Lock" || op.kind == "RLock" {
+						held[name] = op.kind
+					}
+					hit = true
+					break
+				}
+			}
+			if hit {
+				continue
+			}
+			for _, q := range p.b.Preds {
+				if !seen[q] {
+					seen[q] = true
+					work = append(work, pt{q, len(q.Instrs)})
+				}
+			}
+		}
+	}
+	return held
+}
